@@ -1,4 +1,50 @@
+(* C06 — Integrity of signed material: no single-bit change survives. *)
 From Coq Require Import ZArith List Bool.
-From PW Require Import Model.Base Model.VerifyAuth.
-Theorem C06_placeholder : True. Proof. exact I. Qed.
-Print Assumptions C06_placeholder.
+From PW Require Import Model.Base Model.SigTypes Model.Oracles Model.CredJson Model.VerifyAuth Model.Formats
+  Spec.FormatSpec Proofs.TamperProofs Proofs.FormatProofs.
+Import ListNotations.
+Open Scope Z_scope.
+
+(* no hypothesis: the whole raw authenticator data, the hash of the whole raw client data and the whole signature reach the verifier *)
+Theorem C06_whole_bytes_signed : forall O P c r, verify_auth_rec O P c = Ok r ->
+  exists pk sch, o_verify O pk sch (acr_signature c) (acr_auth_data c ++ sha256 O (acr_client_data c)) = true.
+Proof. exact whole_bytes_reach_the_verifier. Qed.
+Print Assumptions C06_whole_bytes_signed.
+
+(* under the stated cryptographic premises (one message per signature, no second signature of the same length,
+   SHA-256 collision-free, fixed digest length): ANY change - hence any single-bit change - of the authenticator
+   data, of the client data JSON, or of the signature of an accepted assertion is rejected *)
+Theorem C06_tamper_auth_data : forall O,
+  (forall k sch s m m', o_verify O k sch s m = true -> o_verify O k sch s m' = true -> m = m') ->
+  forall P c c' r, verify_auth_rec O P c = Ok r ->
+  acr_signature c' = acr_signature c -> acr_client_data c' = acr_client_data c -> acr_auth_data c' <> acr_auth_data c ->
+  forall r', verify_auth_rec O P c' = Ok r' -> False.
+Proof. exact tamper_auth_data. Qed.
+Print Assumptions C06_tamper_auth_data.
+
+Theorem C06_tamper_client_data : forall O,
+  (forall k sch s m m', o_verify O k sch s m = true -> o_verify O k sch s m' = true -> m = m') ->
+  (forall a b, sha256 O a = sha256 O b -> a = b) -> (forall a b, length (sha256 O a) = length (sha256 O b)) ->
+  forall P c c' r, verify_auth_rec O P c = Ok r ->
+  acr_signature c' = acr_signature c -> acr_auth_data c' = acr_auth_data c -> acr_client_data c' <> acr_client_data c ->
+  forall r', verify_auth_rec O P c' = Ok r' -> False.
+Proof. exact tamper_client_data. Qed.
+Print Assumptions C06_tamper_client_data.
+
+Theorem C06_tamper_signature : forall O,
+  (forall k sch s s' m, o_verify O k sch s m = true -> o_verify O k sch s' m = true -> length s = length s' -> s = s') ->
+  forall P c c' r, verify_auth_rec O P c = Ok r ->
+  acr_auth_data c' = acr_auth_data c -> acr_client_data c' = acr_client_data c ->
+  acr_signature c' <> acr_signature c -> length (acr_signature c') = length (acr_signature c) ->
+  forall r', verify_auth_rec O P c' = Ok r' -> False.
+Proof. exact tamper_signature. Qed.
+Print Assumptions C06_tamper_signature.
+
+(* registration formats: the signed / hashed material is the whole raw authenticator data and client-data hash *)
+Theorem C06_packed_signs_whole : forall O now st ad cdj pk roots, verify_packed O now st ad cdj pk roots = Ok tt ->
+  exists k, Signed O k (fld (st_alg st)) (fld (st_sig st)) (ad ++ sha256 O cdj).
+Proof.
+  intros O now st ad cdj pk roots H. apply verify_packed_sound in H.
+  destruct H as [_ _ [(_ & x5c & c & _ & _ & _ & S)|(_ & dk & k & _ & _ & _ & S)]]; eauto.
+Qed.
+Print Assumptions C06_packed_signs_whole.
